@@ -2009,6 +2009,7 @@ func c17r27(c *Ctx, r *Report) {
 
 // round9 runs the round-9 rules of a property (own and shared).
 func round9(c *Ctx, r *Report, prop string) {
+	defer round10(c, r, prop)
 	switch prop {
 	case "C01":
 		c01r14(c, r)
